@@ -245,22 +245,46 @@ impl Prop for C19 {
     }
 
     fn enum_plan(&self, tier: Tier, seed: u64) -> Vec<(u64, u64)> {
-        // truncation at *every* byte of N files (the file as a crashed writer or an interrupted copy left it)
-        let n = match tier {
-            Tier::Quick => 30,
-            Tier::Thorough => 5000,
+        // (a) truncation at *every* byte of N files (the file as a crashed writer or an interrupted copy left it)
+        // (b) *every* one-token corruption of M files: each type-code letter, each count, each number, each entry
+        //     count replaced by each of the four counts beyond the file. The group seed's lowest bit tells which.
+        let (n, m) = match tier {
+            Tier::Quick => (30, 60),
+            Tier::Thorough => (5000, 20000),
         };
-        (0..n)
+        let mut plan: Vec<(u64, u64)> = (0..n)
             .map(|i| {
-                let gs = crate::rng::mix(&[seed, 0xC19, i]);
+                let gs = crate::rng::mix(&[seed, 0xC19, i]) & !1;
                 let c = self.base_case(&mut Rng::new(gs));
                 (c.model.render(&c.layout, None).text.len() as u64, gs)
             })
-            .collect()
+            .collect();
+        for i in 0..m {
+            let gs = crate::rng::mix(&[seed, 0xC19C, i]) | 1;
+            let c = self.base_case(&mut Rng::new(gs));
+            let (counts, entry_counts, values) = c.model.render(&c.layout, None).kinds;
+            plan.push(((3 + counts + values + 4 * entry_counts) as u64, gs));
+        }
+        plan
     }
     fn enum_case(&self, gs: u64, k: u64) -> Case {
         let mut c = self.base_case(&mut Rng::new(gs));
-        c.truncate = Some(k);
+        if gs & 1 == 0 {
+            c.truncate = Some(k);
+            return c;
+        }
+        let (counts, _entry_counts, values) = c.model.render(&c.layout, None).kinds;
+        let (counts, values) = (counts as u64, values as u64);
+        c.corrupt = Some(if k < 3 {
+            QCorrupt::TypeCode(k as u8)
+        } else if k < 3 + counts {
+            QCorrupt::Count((k - 3) as u32)
+        } else if k < 3 + counts + values {
+            QCorrupt::Number((k - 3 - counts) as u32)
+        } else {
+            let j = k - 3 - counts - values;
+            QCorrupt::CountBeyondFile((j / 4) as u32, (j % 4) as u8)
+        });
         c
     }
 
@@ -478,7 +502,7 @@ impl Prop for C19 {
     }
 
     fn rule(&self) -> String {
-        "one run = (abstract QP with <=5 variables and <=4 constraints for a random type code from {L,D,C,Q}x{C,B,M,I,G}x{N,B,L,D,C,Q}: lower-triangle entries incl. diagonal, default and non-default b0, constant, infinity value with bounds at/above/below it, two-sided/one-sided sides, names, starting points; layout: trailing text, comment and blank lines, tab/blank separators, number styles, CRLF, trailing lines, word case; entry: qplib::load_file on the simulated disk or QplibFile::from_reader on a simulated stream; schedule: chunking; faults: EINTR, short reads, EIO at byte k / call j, open failure; truncation at byte k; one-token corruption of a type-code letter, a count or a number; an entry count replaced by one far beyond the file: 10^9, 10^12, 2^62, 2^64-1). Enumerated part: truncation at every byte of N files. distinct = distinct event-log hash; every run is non-trivial (>=1 variable)".into()
+        "one run = (abstract QP with <=5 variables and <=4 constraints for a random type code from {L,D,C,Q}x{C,B,M,I,G}x{N,B,L,D,C,Q}: lower-triangle entries incl. diagonal, default and non-default b0, constant, infinity value with bounds at/above/below it, two-sided/one-sided sides, names, starting points; layout: trailing text, comment and blank lines, tab/blank separators, number styles, CRLF, trailing lines, word case; entry: qplib::load_file on the simulated disk or QplibFile::from_reader on a simulated stream; schedule: chunking; faults: EINTR, short reads, EIO at byte k / call j, open failure; truncation at byte k; one-token corruption of a type-code letter, a count or a number; an entry count replaced by one far beyond the file: 10^9, 10^12, 2^62, 2^64-1). Enumerated part: truncation at every byte of N files; every one-token corruption (each type-code letter, count, number; each entry count replaced by each of four counts beyond the file) of M files. distinct = distinct event-log hash; every run is non-trivial (>=1 variable)".into()
     }
     fn assumptions(&self) -> Vec<String> {
         vec![
